@@ -154,6 +154,60 @@ def run(chk: Check):
             if v["accepted"] and not v["property_violation"]:
                 raise MachineryError(f"corrupted trace ({name}) was accepted: the trace specification does not bind")
         chk.note("corrupted_traces_rejected", ["coh bit flipped", "Prop event dropped"])
+    # ---------------------------------------------------------------- multi-rank histories (thread communicator)
+    from .. import ranks
+    rk = chk.tlc("AfqmcRanks", "SPECIFICATION Spec\nCONSTANTS\n  Ranks = {r1, r2, r3}\n  NEql = 2\n  NBlocks = 3\n  UHF = TRUE\n"
+                 "  RdmGather = TRUE\n  AllowInitFail = FALSE\nINVARIANT SameCollective\nINVARIANT InStep\nINVARIANT EstimateAgrees\n"
+                 "PROPERTY Terminates\nPROPERTY NoStuckRank\n", name="AfqmcRanks", workers=4, deadlock=True)
+    if rk.violated:
+        raise MachineryError(f"AfqmcRanks.tla violates {rk.violated_name}")
+    mr = [(2, "uhf", (2, 1), {}, (3, 1, 2), 2, (1, 1, 1))]
+    if chk.tier == "thorough":
+        mr += [(3, "uhf", (2, 2), dict(ad_mode="reverse", orbital_rotation=False), (2, 1, 1), 2, (1, 1, 2)),
+               (2, "rhf", (2, 2), dict(ad_mode="forward"), (2, 2, 1), 3, (2, 1, 1)), (4, "uhf", (2, 1), {}, (2, 1, 1), 2, (1, 1, 1))]
+    recs, rmeta = [], {}
+    for j, (R, wt, nelec, o, blk, nbl, eql) in enumerate(mr):
+        nw = 4
+        mk = lambda r, wt=wt, nelec=nelec, j=j: runlevel.make_system(np.random.default_rng(880 + j + chk.seed), norb=4, nelec=nelec,
+                                                                    nchol=3, trial_kind=wt, walker_type=wt, n_walkers=nw, dt=0.08,
+                                                                    vscale=0.5)
+        opts = runlevel.default_options(seed=23 + j + chk.seed, n_eql=eql[0], n_ene_blocks_eql=eql[1], n_sr_blocks_eql=eql[2], **o)
+        ev, rr, world = ranks.run_driver_ranks(chk, R, mk, opts, blk, nbl, name=f"mr{j}")
+        rec, inf = ranks.analyse(ev, rr, world, R, nw)
+        rec.update({"id": j + 1, "neql": eql[0], "nblocks": nbl, "uhf": wt == "uhf", "rdm": o.get("ad_mode") in ("reverse", "2rdm")})
+        recs.append(rec)
+        rmeta[j + 1] = (R, wt, o, blk, inf)
+        # every rank's own event stream must be a behaviour of the single-rank machine, coherence bits included
+        for r in range(R):
+            tr = proxies.to_trace([e for e in ev if int(e.get("rank", 0)) == r], nw, tid=1)
+            if not tr:
+                continue
+            v = runlevel.validate_traces(chk, [tr], dict(n_walkers=nw, neql=eql[0], nblocks=nbl, steps=blk[0], ene=blk[1], sr=blk[2],
+                                                         steps_eql=50, ene_eql=eql[1], sr_eql=eql[2]), name=f"mr{j}-r{r}")[0]
+            chk.traces += 1
+            for e in tr:
+                if e["ev"] == "Prop":
+                    chk.case(("mr", j, r, e["k"]))
+            if v["property_violation"]:
+                pv = v["property_violation"]
+                chk.violation(f"trace:{pv['name']}:multirank:{wt}", f"{R}-rank driver run, rank {r}: {pv['name']} violated at event "
+                              f"{pv['line']}: {pv['event']}", {"ranks": R, "rank": r, "options": o, "event": pv["event"]})
+            elif not v["accepted"]:
+                chk.violation(f"trace:not-a-behaviour:multirank:{wt}", f"{R}-rank driver run, rank {r}: first unexplained event "
+                              f"{v['first_unexplained']} at {v['at']} ({inf['describe']})", {"ranks": R, "rank": r, "options": o})
+    if recs:
+        vd = ranks.judge_runs(chk, recs, "c08")
+        for rid, v in vd.items():
+            R, wt, o, blk, inf = rmeta[rid]
+            chk.traces += 1
+            chk.sample({"multi_rank_run": {"ranks": R, "walker_type": wt, "options": o, "block": list(blk)},
+                        "collectives_per_rank": v["program_len"], "walkers_moved_across_ranks": inf["moved_across_ranks"],
+                        "ok": v["ok"]}, limit=7)
+            if not v["ok"]:
+                chk.violation(f"multirank:{v['clause']}:{wt}", f"{R}-rank driver run ({wt} walkers, options {o}): {v['clause']} fails "
+                              f"(rank {v['bad_rank']}, collective #{v['at']}, expected {v['expected']}; {inf['describe']})",
+                              {"ranks": R, "options": o, "verdict": v})
+        chk.note("walkers_moved_across_ranks", sum(m[4]["moved_across_ranks"] for m in rmeta.values()))
     # ---------------------------------------------------------------- spec -> code: schedule replay
     reqs, cases = [], []
     combos = [("none", True, True, (2, 2, 2)), ("forward", True, True, (2, 1, 2)), ("forward", False, True, (3, 2, 1)),
